@@ -326,7 +326,7 @@ def model(c, tier, devs=True):
         if not r.ok:
             c.violation("model: TcpRelay (%s) violates %s" % (k, r.violated or r.error), {"cfg": k, "tail": r.out[-3000:]})
     if devs:
-        names = ["DropOnFirstClose", "DropOnFirstClose_tcp", "DropOnFirstClose_quic", "QuicNoWaitStopped", "JoinBoth", "NoSinkClose", "WsCloseEndsBoth", "CloseSkipsFlush", "NoKeepAlive"]
+        names = ["DropOnFirstClose", "DropOnFirstClose_tcp", "DropOnFirstClose_quic", "QuicNoWaitStopped", "JoinBoth", "NoSinkClose", "WsCloseEndsBoth", "CloseSkipsFlush", "NoKeepAlive", "ServerForwardsErr"]
         jobs = [dict(module="MCTcpRelay", cfg="MCTcpRelay_dev_%s.cfg" % k, workers=2, timeout=900) for k in names]
         res = vlib.tlc_parallel(jobs, parallel=4)
         seen = {}
